@@ -168,6 +168,45 @@ Theorem C11_open_answered_class3_refuted :
 Proof. exact C11_open_answered_class3_refuted_pf. Qed.
 Print Assumptions C11_open_answered_class3_refuted.
 
+(* ---- the sending side ----
+   `CWire q k m`: frame m written on the outbound substream of Connection task k (stream period k) of
+   peer q; `CRet p code`: what the send call returned. In every reachable state a frame reaches the wire
+   only in a send operation, with that very message, through the sink the operation resolves to
+   (send_sink), written by the running task that owns that sink, which is a task of the peer. Through the
+   handle this needs the gate of the peer open (the user saw Opened and not yet Closed) and it is the
+   period whose sink the handle holds; a sink the user kept feeds only the period it was cloned from:
+   nothing is ever delivered into another stream period. *)
+Theorem C11_send_gate :
+  forall (c : cfg) (s : st) (o : op) (s' : st) (ev : list uev) (cl : list call) (q : peer) (k m : N),
+    reachable c s -> step c s o = Some (s', ev, cl) -> In (CWire q k m) cl ->
+    send_sink s o = Some (q, k, m) /\ running s k = true /\
+    (exists t, find_task k (tasks s) = Some t /\ t_peer t = q) /\
+    match o with
+    | SendSync _ _ | SendAsync _ _ => hopen s q = true /\ hsink s q = Some k
+    | _ => usink s q = Some k
+    end.
+Proof. exact send_gate. Qed.
+Print Assumptions C11_send_gate.
+
+(* before Opened, after Closed and for a peer never opened the handle sends nothing: the synchronous
+   call returns Ok and is a no-op, the asynchronous one returns PeerDoesntExist *)
+Theorem C11_send_gate_closed :
+  forall (c : cfg) (s : st) (p : peer) (m : N) (a : bool) (s' : st) (ev : list uev) (cl : list call),
+    reachable c s -> hopen s p = false ->
+    step c s (if a then SendAsync p m else SendSync p m) = Some (s', ev, cl) ->
+    cl = [CRet p (if a then R_NOPEER else R_OK)] /\ ev = [] /\ ps s' = ps s /\ tasks s' = tasks s.
+Proof. exact send_gate_closed. Qed.
+Print Assumptions C11_send_gate_closed.
+
+(* a kept NotificationSink whose stream period is over only reports errors *)
+Theorem C11_stale_sink_errors :
+  forall (c : cfg) (s : st) (p : peer) (k m : N) (a : bool) (s' : st) (ev : list uev) (cl : list call),
+    usink s p = Some k -> find_task k (tasks s) = None ->
+    step c s (if a then SinkAsync p m else SinkSync p m) = Some (s', ev, cl) ->
+    cl = [CRet p (if a then R_NOPEER else R_NOCONN)] /\ ev = [] /\ ps s' = ps s /\ tasks s' = tasks s.
+Proof. exact stale_sink_errors. Qed.
+Print Assumptions C11_stale_sink_errors.
+
 (* ---- the 5 s negotiation timers ----
    `timers` is the FIFO of armed timers (all have the same duration, so arming order is expiry order).
    Only a handshake event of the peer arms a timer, only `Timer p` takes one away, exactly one, and a
@@ -234,6 +273,13 @@ Proof. exact w_drop_check. Qed.
 
 Example C11_ledger_env_nonvacuous :
   ledger_env cfg_w init (open_by_user ++ [CmdClose 0]) = true /\ feasible cfg_w init open_by_user = true.
+Proof. vm_compute. split; reflexivity. Qed.
+
+Example C11_send_delivered_in_its_period :
+  snd (last (fst (run cfg_w init (open_by_user ++ [SendSync 0 7; CmdClose 0; SendSync 0 8; SendAsync 0 9])))
+            (init, [], [])) = [CRet 0 R_NOPEER] /\
+  flat_map (fun x => snd x) (fst (run cfg_w init (open_by_user ++ [SendSync 0 7; CmdClose 0; SendSync 0 8]))) =
+  [COpen 0 0; CRet 0 R_OK; CWire 0 0 7; CRet 0 R_OK].
 Proof. vm_compute. split; reflexivity. Qed.
 
 Example C11_open_close_run :
